@@ -187,6 +187,7 @@ pub fn c10_interesting_phase(acc: u32) -> bool {
 pub fn check_step(
     acc0: u32,
     acc1: u32,
+    nominal: Option<u32>,
     s0: f32,
     s1: f32,
     t0: f32,
@@ -194,7 +195,10 @@ pub fn check_step(
     step: usize,
     stats: &mut Stats,
 ) -> Result<(), Failure> {
-    let delta = (acc1.wrapping_sub(acc0)) & (TWO24 - 1);
+    // "the phase step" is the per-tick step the current frequency asks for (the steady advance observed since the last
+    // frequency change); while that is not known yet the step actually taken is used
+    let actual = (acc1.wrapping_sub(acc0)) & (TWO24 - 1);
+    let delta = nominal.unwrap_or(actual);
     let circ = delta.min(TWO24 - delta) as f64 / TWO24F;
     let ds = (s1 as f64 - s0 as f64).abs();
     let dt = (t1 as f64 - t0 as f64).abs();
@@ -211,7 +215,7 @@ pub fn check_step(
             "C12.sine",
             step,
             format!(
-                "sine moved {} -> {} (|d|={:e}) for a phase step {} -> {} ({} counts); bound {:e}",
+                "sine moved {} -> {} (|d|={:e}) on the tick {} -> {} (per-tick phase step {} counts); bound {:e}",
                 s0, s1, ds, acc0, acc1, delta, sine_bound
             ),
         ));
@@ -221,7 +225,7 @@ pub fn check_step(
             "C12.triangle",
             step,
             format!(
-                "triangle moved {} -> {} (|d|={:e}) for a phase step {} -> {} ({} counts); bound {:e}",
+                "triangle moved {} -> {} (|d|={:e}) on the tick {} -> {} (per-tick phase step {} counts); bound {:e}",
                 t0, t1, dt, acc0, acc1, delta, tri_bound
             ),
         ));
@@ -247,6 +251,7 @@ pub fn run_case(case: &LfoCase, mask: u32, tick_budget: u64, stats: &mut Stats) 
     // only that it does not change by itself)
     let mut freq: Option<f64> = None;
     let mut inc_obs: Option<u32> = None; // observed per-tick advance since the last set_frequency
+    let mut nominal_step: Option<u32> = None; // same, kept for the C12 oracle
     let mut ticks_total: u64 = 0;
     let mut n_setphase = 0u32;
     let mut n_setfreq = 0u32;
@@ -340,6 +345,7 @@ pub fn run_case(case: &LfoCase, mask: u32, tick_budget: u64, stats: &mut Stats) 
                 n_setfreq += 1;
                 freq = Some(*f as f64);
                 inc_obs = None;
+                nominal_step = None;
                 if mask & C11 != 0 && lfo.verif_phase_bits() != before {
                     return Err(Failure::new(
                         "C11.freq_change_jump",
@@ -388,7 +394,9 @@ pub fn run_case(case: &LfoCase, mask: u32, tick_budget: u64, stats: &mut Stats) 
                     }
                     if mask & C12 != 0 {
                         let (s1, t1) = (lfo.get(Waveshape::Sine), lfo.get(Waveshape::Triangle));
-                        check_step(acc0, acc1, s0, s1, t0, t1, step, stats)?;
+                        let d_now = acc1.wrapping_sub(acc0) & (TWO24 - 1);
+                        let nominal = *nominal_step.get_or_insert(d_now);
+                        check_step(acc0, acc1, Some(nominal), s0, s1, t0, t1, step, stats)?;
                         stats.count("pairs_checked", 1);
                         if c12_interesting_pair(acc0, acc1) {
                             stats.count("pairs_interesting", 1);
@@ -547,6 +555,7 @@ pub fn sweep_c12(start: u32, inc: u32, count: u64, stats: &mut Stats) -> Result<
     };
     l.set_frequency(inc as f32 / 128.0);
     let mut n = 0u64;
+    let mut nominal_step: Option<u32> = None;
     let mut acc0 = l.verif_phase_bits();
     let mut s0 = l.get(Waveshape::Sine);
     let mut t0 = l.get(Waveshape::Triangle);
@@ -555,7 +564,9 @@ pub fn sweep_c12(start: u32, inc: u32, count: u64, stats: &mut Stats) -> Result<
         let acc1 = l.verif_phase_bits();
         let s1 = l.get(Waveshape::Sine);
         let t1 = l.get(Waveshape::Triangle);
-        check_step(acc0, acc1, s0, s1, t0, t1, acc0 as usize, stats)?;
+        // nominal per-tick step = the step of the first tick of this walk (how the frequency maps to a step is C11's business)
+        let nominal = *nominal_step.get_or_insert(acc1.wrapping_sub(acc0) & (TWO24 - 1));
+        check_step(acc0, acc1, Some(nominal), s0, s1, t0, t1, acc0 as usize, stats)?;
         n += 1;
         if c12_interesting_pair(acc0, acc1) {
             stats.count("pairs_interesting", 1);
